@@ -1159,4 +1159,4 @@ def _operations_commutes_impl(
     if m12 is None or m21 is None:
         return NotImplemented
 
-    return np.allclose(m12, m21, atol=atol)
+    return np.allclose(m12, m21, rtol=0, atol=atol)
